@@ -4,7 +4,9 @@ import Bng.Proof.DhcpTermMonitor
 
   `monitor_silent_on_model`: for EVERY history of DISCOVER / REQUEST (new session, renewal, renewal under another
   circuit-id, NAK) / RELEASE / DECLINE / clock ticks / cleanup passes / cleanup passes with a termination inside their
-  unlock window / two terminations at once / shutdown, the monitor `Bng.DhcpTerm.monitorCore` - ALL of its clauses:
+  unlock window / two terminations at once / shutdown / EVERY `fault` op (a full QoS egress map, QoS ingress map,
+  subscriber_nat, subscriber_pools, circuit_id_map, circuit_id_subscribers or vlan_subscriber_pools: installs that
+  stop half-way, partial cache sets), the monitor `Bng.DhcpTerm.monitorCore` - ALL of its clauses:
   addr-not-returned, nat-residue, qos-residue, cache-residue (mac, circuit, vlan), index-residue, missing-stop,
   double-stop, stop-unstarted, second-end-effect, view-skew - run on the model's own structured observations
   (`obsOf`), raises nothing but the clauses of the two recorded findings that the model reproduces:
@@ -16,7 +18,8 @@ import Bng.Proof.DhcpTermMonitor
 
   What is NOT covered by a theorem: histories with a raced establishment (`OpX.estGap`) and their after-effects (the
   clauses KF-dhcp4-establish-race and KF-dhcp4-stale-index-revival are validated by the runs and by the witness
-  theorems of Spec.C16Dhcp only); the string layer (parseSnap / showSnapshot), which the driver cross-checks against
+  theorems of Spec.C16Dhcp only); histories with a write-protected cache map (`OpX.wfault`: Deletes fail; the model
+  itself carries the residue there, clause KF-cache-delete-ignored, witness `delete_ignored_is_judged` below); the string layer (parseSnap / showSnapshot), which the driver cross-checks against
   `obsOf` on every line (verdict `obs-roundtrip`).
 -/
 namespace Bng.Spec.C16DhcpMon
@@ -65,5 +68,24 @@ example : (runBoth (init true 300) (initMon true 300)
 example : runBoth (init true 300) (initMon true 300)
     ([.req 1 2 (some 1), .tick 100, .req 1 2 (some 2), .term (.dec 1 2), .term (.rel 1), .req 2 3 none, .tick 301,
       .gap [] (.rel 2), .req 3 4 none, .split (.rel 3) (.dec 3 4), .term (.cleanup [])].map OpX.op) = [] := by decide
+
+/-- installs that fail half-way (every cache map and both QoS maps full, then with room again): the monitor is silent -/
+example : runBoth (init true 300) (initMon true 300)
+    ([.fault 3 true, .fault 4 true, .fault 5 true, .fault 1 true, .req 1 2 (some 1), .fault 3 false, .req 1 2 (some 2),
+      .term (.rel 1), .req 2 2 (some 1), .fault 4 false, .fault 5 false, .tick 301, .term (.cleanup [])].map OpX.op) = [] := by
+  decide
+
+/-- a removal that fails IS judged: on the model's own observations of a history with a write-protected
+    subscriber_pools / circuit_id_subscribers handle the monitor reports the entries that outlive the session, with the
+    clause of KF-cache-delete-ignored for exactly the write-protected maps - and the same residue in a map that was
+    writable would carry no clause (second history: nothing is write-protected, nothing is reported) -/
+theorem delete_ignored_is_judged :
+    (runBoth (init true 300) (initMon true 300)
+      [.op (.req 1 2 (some 1)), .wfault 3 true, .wfault 5 true, .op (.term (.rel 1)), .wfault 3 false,
+       .op (.term (.rel 1)), .op (.req 2 2 none)]).map (fun v => (v.1, v.2.1))
+      = [("cache-residue", "KF-cache-delete-ignored"), ("cache-residue", "KF-cache-delete-ignored")] ∧
+    runBoth (init true 300) (initMon true 300)
+      [.op (.req 1 2 (some 1)), .wfault 3 true, .wfault 3 false, .op (.term (.rel 1))] = [] := by
+  decide
 
 end Bng.Spec.C16DhcpMon
